@@ -55,3 +55,53 @@ def c18_kwargs_support_varkw(case, result):
     declared = ['a', 'b', 'c', 'd'][:case['npos']]
     return any(k not in declared for k, _ in case.get('kw', [])) and bool(result.get('kws_finding')) \
         and (result.get('viol') or '').startswith('kwargs_support dropped the undeclared keyword')
+
+def c19_companion_deep_match(case, result):
+    # loop(...)(f)(arg, *companions, **kw): following the property's own rule down the lifted argument (same length / same keys ->
+    # indexed, else passed whole), some non-empty container node of arg meets a companion whose own length / keys do not match but
+    # which holds, inside nested lists/tuples (resp. nested dict values), a sub-container of exactly that length (resp. keys);
+    # _item_by_i / _item_by_key index that sub-container instead of broadcasting the companion
+    if case.get('kind') != 'loop':
+        return False
+    seq = lambda s: isinstance(s, dict) and ('L' in s or 'T' in s)
+    els = lambda s: s['L'] if 'L' in s else s['T']
+    isd = lambda s: isinstance(s, dict) and 'D' in s
+    keys = lambda s: sorted(k for k, _ in s['D'][1])
+    def plain_i(c, n):
+        return not seq(c) or (len(els(c)) != n and all(plain_i(v, n) for v in els(c)))
+    def plain_k(c, ks):
+        return not isd(c) or (keys(c) != ks and all(plain_k(v, ks) for _, v in c['D'][1]))
+    def has_leaf(a):
+        return not isinstance(a, dict) or any(has_leaf(x) for x in (els(a) if seq(a) else [v for _, v in a['D'][1]]))
+    def walk(arg, comps):
+        if not has_leaf(arg):      # no leaf below: f is never called, nothing to observe
+            return False
+        if seq(arg):
+            xs = els(arg); n = len(xs)
+            if n == 0:
+                return False
+            match = [seq(c) and len(els(c)) == n for c in comps]
+            if any(not m and not plain_i(c, n) for c, m in zip(comps, match)):
+                return True
+            return any(walk(xs[i], [els(c)[i] if m else c for c, m in zip(comps, match)]) for i in range(n))
+        if isd(arg):
+            items = arg['D'][1]; ks = keys(arg)
+            if not items:
+                return False
+            match = [isd(c) and keys(c) == ks for c in comps]
+            if any(not m and not plain_k(c, ks) for c, m in zip(comps, match)):
+                return True
+            return any(walk(v, [dict(map(tuple, c['D'][1]))[k] if m else c for c, m in zip(comps, match)]) for k, v in items)
+        return False
+    return walk(case['arg'], list(case.get('pos', [])) + [v for _, v in case.get('kw', [])])
+
+def c02_xor_no_key_is_copy(case, result):
+    # xor / (x / y) with NO key column (lcols empty, or lcols=None and no shared column) returns x.copy() although y has rows;
+    # only reported when harness/props/c02.py runs with C02_FLAG_NOKEY_XOR=1 (behaviour pinned by test_dictable_xor_no_rhs)
+    if case.get('kind') not in ('xor', 'both'):
+        return False
+    xc = [n for n, _ in case['x']]; yc = [n for n, _ in case['y']]
+    lc = case.get('lcols')
+    items = [c for c in xc if c in yc] if lc is None else (lc[1] if lc[0] == 'list' else [lc])
+    ny = len(case['y'][0][1]) if case['y'] else 0
+    return len(items) == 0 and ny > 0 and 'anti-join' in (result.get('viol') or '')
